@@ -1,11 +1,144 @@
 (* C15 - Module archives round-trip and can never write outside their directory.
-   This file contains only statements, closed by [exact], and Print Assumptions. *)
+   This file contains only statements, closed by [exact], and Print Assumptions.
+   is_letter / fold_min are the Unicode oracles (unicode.IsLetter, minimum of the
+   unicode.SimpleFold orbit); every theorem holds for every instantiation. *)
 From Coq Require Import String.
 From Coq Require Import List NArith ZArith Bool.
-From Verif Require Import Zip.Bytes Zip.Model Zip.Examples.
+From Verif Require Import Zip.Bytes Zip.BytesProofs Zip.Model Zip.PathProofs Zip.ZipProofs Zip.FsProofs
+  Zip.UnzipProofs Zip.CollisionProofs Zip.HostileProofs Zip.Examples.
 Import ListNotations.
 
+(* module.CheckFilePath accepts only relative, clean paths whose elements are non-empty,
+   not "." or "..", and free of '/', '\', ':' and NUL *)
+Theorem C15_checked_path_safe : forall (is_letter : N -> bool) p,
+  check_path is_letter p = true ->
+  let es := split_slash p in
+  p = join_slash es /\ es <> [] /\ Forall good_elem es /\
+  is_abs p = false /\ clean p = p /\
+  (forall b, In b p -> b <> c_backslash /\ b <> c_colon /\ b <> 0%N).
+Proof. exact check_path_safe. Qed.
+Print Assumptions C15_checked_path_safe.
+
+(* filepath.Join(dir, name) of a checked name stays beneath dir *)
+Theorem C15_join_checked_beneath : forall (is_letter : N -> bool) dir,
+  clean_elems true [] dir = dir -> forall name, check_path is_letter name = true ->
+  join_path dir name = dir ++ split_slash name /\ split_slash name <> [].
+Proof. exact join_path_checked. Qed.
+Print Assumptions C15_join_checked_beneath.
+
+(* ... whereas an unchecked name escapes (non-vacuity of the check) *)
 Example C15_ex_join_escapes_unchecked :
   join_path [lit "P"; lit "t"] (lit "../sentinel") = [lit "P"; lit "sentinel"].
 Proof. exact ex_join_escapes. Qed.
 Print Assumptions C15_ex_join_escapes_unchecked.
+
+(* For EVERY archive, file system and clean absolute target: Unzip only adds fresh entries
+   (exclusive creation, nothing existing is modified); each is a directory on the path to
+   dir, or lies strictly beneath dir and is a directory or a regular file holding at most
+   the declared number of bytes of some file entry. *)
+Theorem C15_unzip_confined : forall is_letter fold_min dir,
+  clean_elems true [] dir = dir ->
+  forall fs zs es fs' r,
+  Forall uint64_entry es ->
+  unzip is_letter fold_min dir fs zs es = (fs', r) ->
+  extends (unzip_effect dir es) fs fs'.
+Proof. exact unzip_confined. Qed.
+Print Assumptions C15_unzip_confined.
+
+(* the copy loop of Unzip, for ANY reader behaviour: at most declared+1 bytes reach the file,
+   and without an error at most declared *)
+Theorem C15_limited_copy_bounded : forall d delivered rerr w err,
+  limited_copy d delivered rerr = (w, err) ->
+  (Z.of_nat (length w) <= Z.max 0 (d + 1))%Z /\
+  (err = false -> w = delivered /\ rerr = false /\ (Z.of_nat (length w) <= d)%Z).
+Proof. exact limited_copy_bounded. Qed.
+Print Assumptions C15_limited_copy_bounded.
+
+(* a successful Unzip wrote exactly the declared bytes of every file entry; total <= MaxZipFile *)
+Theorem C15_unzip_bytes_bounded : forall is_letter fold_min dir,
+  clean_elems true [] dir = dir ->
+  forall fs zs es fs',
+  Forall uint64_entry es ->
+  unzip is_letter fold_min dir fs zs es = (fs', UOk) ->
+  (forall e, In e es -> ends_with_slash (e_name e) = false ->
+     fs_lookup fs' (dir ++ split_slash (e_name e)) = Some (NFile (e_data e)) /\
+     N.of_nat (length (e_data e)) = e_declared e /\ e_crc_ok e = true /\ e_open_ok e = true) /\
+  (0 <= declared_sum es <= MaxZipFile)%Z.
+Proof. exact unzip_ok_exact. Qed.
+Print Assumptions C15_unzip_bytes_bounded.
+
+(* a rejected archive is never extracted *)
+Theorem C15_unzip_rejected_untouched : forall is_letter fold_min dir fs zs es,
+  checked_err (check_zip is_letter fold_min zs es) = true ->
+  unzip is_letter fold_min dir fs zs es = (fs, UErr).
+Proof. exact unzip_rejected_untouched. Qed.
+Print Assumptions C15_unzip_rejected_untouched.
+
+(* hostile entries: each of the following makes CheckZip (hence Unzip) reject the archive *)
+Theorem C15_hostile_absolute_rejected : forall is_letter fold_min zs es e,
+  In e es -> is_abs (e_name e) = true -> checked_err (check_zip is_letter fold_min zs es) = true.
+Proof. exact hostile_absolute_rejected. Qed.
+Print Assumptions C15_hostile_absolute_rejected.
+
+Theorem C15_hostile_dot_element_rejected : forall is_letter fold_min zs es e x,
+  In e es -> In x (split_slash (entry_name e)) -> x = s_dot \/ x = s_dotdot \/ x = [] ->
+  checked_err (check_zip is_letter fold_min zs es) = true.
+Proof. exact hostile_dot_element_rejected. Qed.
+Print Assumptions C15_hostile_dot_element_rejected.
+
+Theorem C15_hostile_byte_rejected : forall is_letter fold_min zs es e b,
+  In e es -> In b (e_name e) -> b = c_backslash \/ b = c_colon \/ b = 0%N ->
+  checked_err (check_zip is_letter fold_min zs es) = true.
+Proof. exact hostile_byte_rejected. Qed.
+Print Assumptions C15_hostile_byte_rejected.
+
+Theorem C15_hostile_collision_rejected : forall is_letter fold_min zs l1 e1 l2 e2 l3,
+  entry_is_dir e1 = false \/ entry_is_dir e2 = false ->
+  str_to_fold fold_min (entry_name e1) = str_to_fold fold_min (entry_name e2) ->
+  checked_err (check_zip is_letter fold_min zs (l1 ++ e1 :: l2 ++ e2 :: l3)) = true.
+Proof. exact hostile_collision_rejected. Qed.
+Print Assumptions C15_hostile_collision_rejected.
+
+Theorem C15_accepted_no_collision : forall is_letter fold_min zs l1 e1 l2 e2 l3 q1 x1 q2 x2,
+  checked_err (check_zip is_letter fold_min zs (l1 ++ e1 :: l2 ++ e2 :: l3)) = false ->
+  In (q1, x1) (cc_targets (entry_name e1) (entry_is_dir e1)) ->
+  In (q2, x2) (cc_targets (entry_name e2) (entry_is_dir e2)) ->
+  str_to_fold fold_min q1 = str_to_fold fold_min q2 -> q1 = q2 /\ x1 = true /\ x2 = true.
+Proof. exact accepted_no_collision. Qed.
+Print Assumptions C15_accepted_no_collision.
+
+Theorem C15_hostile_cue_mod_rejected : forall is_letter fold_min zs es e,
+  In e es -> cz_cue_mod (entry_name e) = None -> checked_err (check_zip is_letter fold_min zs es) = true.
+Proof. exact hostile_cue_mod_rejected. Qed.
+Print Assumptions C15_hostile_cue_mod_rejected.
+
+Theorem C15_hostile_local_module_rejected : forall is_letter fold_min zs es e,
+  In e es -> entry_name e = s_local_module -> checked_err (check_zip is_letter fold_min zs es) = true.
+Proof. exact hostile_local_module_rejected. Qed.
+Print Assumptions C15_hostile_local_module_rejected.
+
+Theorem C15_hostile_oversize_rejected : forall is_letter fold_min zs es e,
+  In e es -> entry_is_dir e = false ->
+  (entry_name e = s_cue_mod_module_cue /\ (MaxCUEMod < to_int64 (e_declared e))%Z) \/
+  (entry_name e = s_license /\ (MaxLICENSE < to_int64 (e_declared e))%Z) ->
+  checked_err (check_zip is_letter fold_min zs es) = true.
+Proof. exact hostile_oversize_rejected. Qed.
+Print Assumptions C15_hostile_oversize_rejected.
+
+Theorem C15_hostile_total_size_rejected : forall is_letter fold_min zs es,
+  (MaxZipFile < declared_sum es)%Z \/
+  (exists e, In e es /\ entry_is_dir e = false /\ (to_int64 (e_declared e) < 0)%Z) ->
+  checked_err (check_zip is_letter fold_min zs es) = true.
+Proof. exact hostile_total_size_rejected. Qed.
+Print Assumptions C15_hostile_total_size_rejected.
+
+Theorem C15_hostile_zip_size_rejected : forall is_letter fold_min zs es,
+  (MaxZipFile < zs)%Z -> checked_err (check_zip is_letter fold_min zs es) = true.
+Proof. exact hostile_zip_size_rejected. Qed.
+Print Assumptions C15_hostile_zip_size_rejected.
+
+Theorem C15_no_module_file_rejected : forall is_letter fold_min zs es,
+  (forall e, In e es -> entry_name e <> s_cue_mod_module_cue) ->
+  checked_err (check_zip is_letter fold_min zs es) = true.
+Proof. exact no_module_file_rejected. Qed.
+Print Assumptions C15_no_module_file_rejected.
